@@ -533,6 +533,66 @@ def s_background2d(E):
         E.props(bkg, [n for n in names if hasattr(type(bkg), n)])
 
 
+BOXK = ['divides', 'two_boxes', 'equals', 'nodivide', 'larger']
+
+
+@scenario('Background2D_blocks', data=None, cond=None, mask=None, error=None, ybox=BOXK, xbox=BOXK,
+          order=['C', 'C', 'F', 'view'], msk=['none', 'array', 'readonly'], cov=['none', 'coverage'],
+          outliers=['yes', 'yes', 'no'], clip=['default', 'none'], edge=['pad', 'crop'],
+          est=['default', 'median', 'mean'], shape=['40x30', '30x40', '36x36'])
+def s_background2d_blocks(E):
+    """Blockwise code paths: box size chosen per axis independently (divides the axis / two
+    boxes / equals the axis / does not divide / larger than the axis), C- and F-contiguous float64
+    input, with masked, coverage-masked and sigma-clipped pixels that carry finite values."""
+    from astropy.stats import SigmaClip
+    from photutils.background import Background2D, MedianBackground, MeanBackground
+    ny, nx = [int(t) for t in E.v['shape'].split('x')]
+    E.shape = (ny, nx)
+
+    def box(kind, n):
+        small = [d for d in (10, 6, 5, 4, 3) if n % d == 0][0]
+        return {'divides': small, 'two_boxes': n // 2, 'equals': n, 'nodivide': [d for d in (7, 11, 13) if n % d][0],
+                'larger': n + 5}[kind]
+    bs = (box(E.v['ybox'], ny), box(E.v['xbox'], nx))
+    img = E.nrng.normal(10.0, 1.0, (ny, nx))
+    if E.v['outliers'] == 'yes':
+        img[3, 4] = 5000.0
+        img[ny // 2, nx // 2] = -4000.0
+        img[-2, -2] = 7000.0
+        img[ny // 3, 1] = 900.0
+    if E.v['order'] == 'F':
+        data = E.reg('data', np.asfortranarray(img))
+    elif E.v['order'] == 'view':
+        data = E.wrap('data', img, 'view')
+    else:
+        data = E.reg('data', np.ascontiguousarray(img))
+    kw = {}
+    if E.v['msk'] != 'none':
+        m = np.zeros((ny, nx), bool)
+        m[1, 1] = m[ny // 2 + 1, 2] = m[ny - 1, nx - 1] = True
+        m[5:7, 8:12] = True
+        if E.v['msk'] == 'readonly':
+            m.setflags(write=False)
+        kw['mask'] = E.reg('mask', m)
+    if E.v['cov'] == 'coverage':
+        c = np.zeros((ny, nx), bool)
+        c[-1, :3] = True
+        c[:4, -2:] = True
+        kw['coverage_mask'] = E.reg('coverage_mask', c)
+        kw['fill_value'] = -7.0
+    if E.v['clip'] == 'none':
+        kw['sigma_clip'] = None
+    if E.v['est'] != 'default':
+        kw['bkg_estimator'] = MedianBackground() if E.v['est'] == 'median' else MeanBackground()
+    bkg = E.call('init', lambda: Background2D(data, bs, filter_size=1, edge_method=E.v['edge'],
+                                              exclude_percentile=90.0, **kw))
+    if bkg is not None:
+        names = ['background', 'background_rms', 'background_mesh', 'background_rms_mesh', 'npixels_mesh',
+                 'npixels_map', 'mesh_nmasked', 'background_median']
+        E.rng.shuffle(names)
+        E.props(bkg, names)
+
+
 @scenario('background_estimators', data=['ndarray', 'masked', 'masked_nomask', 'quantity', 'view', 'readonly'],
           mask=None, error=None, axis=['none', '0', 'tuple'], masked=['no', 'yes'])
 def s_bkg_estimators(E):
@@ -1099,7 +1159,8 @@ def run_scenario(name, variant, seed, report, stat=None, count=None):
 # relative cost: how many variants per scenario in the quick tier
 WEIGHT = {'isophote': 6, 'PSFPhotometry': 30, 'IterativePSFPhotometry': 14, 'psf_fitting_helpers': 14,
           'extract_stars_epsf': 16, 'SourceCatalog': 24, 'ApertureStats': 30, 'centroid_2dg': 30,
-          'centroid_com': 30, 'SegmentationImage': 4, 'psf_models': 12, 'Background2D': 40}
+          'centroid_com': 30, 'SegmentationImage': 4, 'psf_models': 12, 'Background2D': 40,
+          'Background2D_blocks': 150}
 DEFAULT_WEIGHT = 36
 
 
